@@ -555,7 +555,7 @@ def run_check(pid, tier, seed, replay=None):
         events_validated_against_impl=stats["events"],
         evaluations=total, distinct=distinct, distinct_nontrivial=nontriv,
         rule=plan["rule"], samples=samples[:12] + [dict(design_model=d) for d in design_runs],
-        design_models=design_runs, rejected_events=len(rejects),
+        design_models=design_runs, rejected_events=len(rejects), events_by_kind=dict(sorted(core.BY_KIND.items())),
         known_finding_events={d: len(r) for d, r in kf_seen.items()},
         checker_cmd="bin/tlcj <lib> -config tla/vm/Trace.cfg tla/vm/Trace.tla (PROP=%s)" % pid,
         exhaustive=False,
